@@ -31,7 +31,7 @@ Theorem C08_event_is_channel_op : forall sx st who k a v,
   (k < length (t_raw (nth who (threads st) dummy_thread)))%nat ->
   match chan_step sx st who k a v with
   | Ok (st', d) => exists b, raw_apply (spec_of sx k) (raw_of st who k) a v = Ok (raw_of st' who k, b) /\
-                             d = (if b then Some (who, k) else None)
+                             d = (if b then [(who, k)] else [])
   | Err e => raw_apply (spec_of sx k) (raw_of st who k) a v = Err e
   end.
 Proof. exact chan_step_spec. Qed.
